@@ -485,6 +485,15 @@ func (f *Frame) instr(in ssa.Instruction) {
 	case *ssa.DebugRef:
 	case *ssa.Alloc:
 		elem := in.Type().(*types.Pointer).Elem()
+		if !in.Heap {
+			// a non-escaping local: its storage is private to this activation, no callee or havoc can touch it
+			name := localComp(f.prefix, in)
+			p := &Place{kind: "global", comp: name, typ: elem}
+			f.places[in] = p
+			e.comp(f.st, name, e.sortOf(elem))
+			e.setComp(f.st, name, e.zero(elem))
+			break
+		}
 		ref := e.allocRef(f.st)
 		f.vals[in] = ref
 		switch u := elem.Underlying().(type) {
@@ -735,6 +744,10 @@ func (e *Enc) loadFact(v string, t types.Type, st *State) string {
 		return e.typeFact(v, t, st)
 	}
 	return "true"
+}
+
+func localComp(prefix string, a *ssa.Alloc) string {
+	return "L_" + sanitize(prefix+a.Name())
 }
 
 func (f *Frame) idxVal(v ssa.Value) string {
